@@ -43,6 +43,13 @@ source is not found - a refactor is never an alarm; the result then says `extrac
                 `path/<resolved constant>` / `path/data/<data_path>` / `parent(..)`.  Error mappings of writes are not
                 part of a row.  Any other statement => UNKNOWN SHAPE => the section is pinned.
 
+  layerTable    `Layer::save_with_options` of src/layer.rs with the helper it calls as `self.<helper>(path, opts)?`
+                (`layerinfo_to_file_if_needed`) inlined: `create_dir(path)`, the write of contents.plist, the layer-info rows
+                (an early `if C { return Ok(()); }` puts `!(C)` on every row behind it; the two `dict.insert`s with their
+                conditions; the key sort; the write of layerinfo.plist), and the loop over `self.contents.iter()` (the
+                non-rayon iterator) as one row `each(..)[get:..;save_glyph:path/<glyph_path>]`.  Rigid shapes: anything else
+                => pinned.
+
 The tie theorems (`source_*` in Norad/Props/C08.lean and C17.lean, by `decide`) compare these with what the MODEL does
 (the order of `plan` on a probe font; which corrupt file makes `loadImpl` fail under which single-switch request).
 """
@@ -444,7 +451,87 @@ def sec_save_table(src, consts):
             "def saveTable : List (List (List Char) × List Char) := [\n" + ",\n".join(lines) + "]\n")
 
 
-SECTIONS = [("saveSteps", sec_save_steps), ("loadSwitches", sec_load_switches), ("saveTable", sec_save_table)]
+# ---------------------------------------------------------------------------------------------------------------------
+# layerTable: `Layer::save_with_options` with `layerinfo_to_file_if_needed` inlined, as rows (guard atoms, step)
+
+def layer_consts(repo_src):
+    out = {}
+    for m in re.finditer(r'\b(?:static|const)\s+([A-Z_]+)\s*:\s*&(?:\'static\s+)?str\s*=\s*"([^"\\]*)"\s*;', repo_src):
+        out.setdefault(m.group(1), m.group(2))
+    return out
+
+
+def layer_stmt_rows(text, guard, consts, info_fn):
+    """rows of one statement of the two layer functions (shapes as on the pinned tree; anything else: unknown shape)"""
+    m = re.fullmatch(r"(?:std::)?fs::(create_dir_all|create_dir)\(path\) ?\.map_err\(LayerWriteError::(\w+)\)\?;", text)
+    if m:
+        return [(guard, "%s:path!%s" % (m.group(1), m.group(2)))]
+    m = re.fullmatch(r"(?:crate::)?write::write_xml_to_file\(&path\.join\(([A-Z_]+)\), &([\w.]+), \w+\) ?"
+                     r"\.map_err\(LayerWriteError::(\w+)\)\??;?", text)
+    if m:
+        return [(guard, "write:path/%s<-%s" % (const_value(consts, m.group(1)), m.group(2)))]
+    m = re.fullmatch(r"self\.(\w+)\(path, \w+\)\?;", text)
+    if m and info_fn is not None and m.group(1) == info_fn[0]:
+        rows, g = [], list(guard)
+        for t in info_fn[1]:
+            e = re.fullmatch(r"if (?!let\b)([^{}]+?) \{ return Ok\(\(\)\); \}", t)
+            if e:
+                g = g + ["!(" + norm(e.group(1)) + ")"]          # everything behind an early return runs under its negation
+                continue
+            rows += layer_stmt_rows(t, g, consts, None)
+        return rows
+    if re.fullmatch(r"let mut (\w+) = (?:plist::)?(?:dictionary::)?Dictionary::new\(\);", text):
+        return []                                                  # the local the layer info is collected in
+    m = re.fullmatch(r'if let Some\((\w+)\) = &?(self\.\w+) \{ (\w+)\.insert\("(\w+)"\.into\(\), \1\.\w+\(\)\.into\(\)\); \}', text)
+    if m:
+        return [(guard + ["some:" + m.group(2)], "insert:%s[%s]" % (m.group(3), m.group(4)))]
+    m = re.fullmatch(r'if ([^{}]+?) \{ (\w+)\.insert\("(\w+)"\.into\(\), (self\.\w+)\.clone\(\)\.into\(\)\); \}', text)
+    if m:
+        return [(guard + [norm(m.group(1))], "insert:%s[%s]=%s" % (m.group(2), m.group(3), m.group(4)))]
+    m = re.fullmatch(r"(?:crate::)?util::recursive_sort_plist_keys\(&mut (\w+)\);", text)
+    if m:
+        return [(guard, "sort-keys:" + m.group(1))]
+    raise NotFound("layer save: statement of unknown shape: " + text[:70])
+
+
+def sec_layer_table(src_font, consts_font):
+    repo = os.environ.get("VERIF_REPO", "/repo").rstrip("/") or "/repo"
+    src = strip_comments(open(os.path.join(repo, "src", "layer.rs")).read())
+    consts = layer_consts(src)
+    main = [t for _, t in statements(fn_body(src, "save_with_options"))]
+    # the helper that is called with `(path, opts)?`
+    helper = None
+    for t in main:
+        m = re.fullmatch(r"self\.(\w+)\(path, \w+\)\?;", t)
+        if m:
+            helper = (m.group(1), [x for _, x in statements(fn_body(src, m.group(1)))])
+    rows, k = [], 0
+    while k < len(main):
+        t = main[k]
+        # the iterator over `contents`: the sequential one is what the harness is built with
+        if re.fullmatch(r'#\[cfg\(feature = "rayon"\)\] let iter = self\.contents\.par_iter\(\);', t):
+            k += 1
+            continue
+        m = re.fullmatch(r'#\[cfg\(not\(feature = "rayon"\)\)\] let mut iter = (self\.\w+\.iter\(\));', t)
+        if m:
+            it = m.group(1)
+            k += 1
+            t2 = main[k] if k < len(main) else ""
+            m2 = re.fullmatch(r"iter\.try_for_each\(\|\((\w+), (\w+)\)\| \{ let (\w+) = (self\.\w+)\.get\(\1\)\.expect\(\"[^\"]*\"\); "
+                              r"let \2 = path\.join\(\2\); \3\.save_with_options\(&\2, \w+\)\.map_err\(.*\) \}\)", t2)
+            if not m2 or k != len(main) - 1:
+                raise NotFound("layer save: the loop over contents")
+            rows.append(([], "each(%s)[get:%s[%s].expect();save_glyph:path/<%s>]" % (it, m2.group(4), m2.group(1), m2.group(2))))
+            k += 1
+            continue
+        rows += layer_stmt_rows(t, [], consts, helper)
+        k += 1
+    lines = ["  ([%s], %s)" % (", ".join(lean_str(a) for a in g), lean_str(st)) for g, st in rows]
+    return ("/-- `Layer::save_with_options` (its layer-info helper inlined) as rows (guard atoms, step), in source order -/\n"
+            "def layerTable : List (List (List Char) × List Char) := [\n" + ",\n".join(lines) + "]\n")
+
+
+SECTIONS = [("saveSteps", sec_save_steps), ("loadSwitches", sec_load_switches), ("saveTable", sec_save_table), ("layerTable", sec_layer_table)]
 
 HEADER = """/-!
 GENERATED by tools/extract_save_order.py from norad's src/font.rs on every `./check C08|C09|C17` run.  Do not edit.
